@@ -193,8 +193,12 @@ def _div(ctx, eqn, ins):
     if x.kind == "f":
         return [S.map2(S.f_div, x, y, x.dtype)]
 
+    lo = S.int_range(x.dtype)[0]
+
     def d(a, b):
         ctx.assume(S.c_ne(b, 0, "i"))
+        if lo < 0:  # INT_MIN / -1 overflows: undefined in ONNX (and traps in ONNX Runtime)
+            ctx.assume(S.b_not(S.b_and(S.c_eq(a, lo, "i"), S.c_eq(b, -1, "i"))))
         if not S.is_sym(b) and int(b) == 0:
             return 0
         return S.i_div_trunc(a, b, x.dtype)
@@ -208,8 +212,12 @@ def _rem(ctx, eqn, ins):
     if x.kind == "f":
         return [S.map2(S.f_fmod, x, y, x.dtype)]
 
+    lo = S.int_range(x.dtype)[0]
+
     def d(a, b):
         ctx.assume(S.c_ne(b, 0, "i"))
+        if lo < 0:
+            ctx.assume(S.b_not(S.b_and(S.c_eq(a, lo, "i"), S.c_eq(b, -1, "i"))))
         if not S.is_sym(b) and int(b) == 0:
             return 0
         return S.i_rem_trunc(a, b, x.dtype)
